@@ -1,1 +1,373 @@
-pub fn run(_a: &vcommon::Args) {}
+//! C09 — The COB cache answers exactly like direct evaluation.
+//!
+//! Issues and patches are created and updated (i) behind the cache's back with the low-level
+//! change writer, followed by the real post-fetch updater `worker::fetch::cache_cobs` (hook) with
+//! the corresponding `RefUpdate`s, and (ii) through the cached high-level API. After every
+//! operation every query is asked of `Cache<_, StoreWriter>` and of `Cache::no_cache(repo)` and
+//! the answers are compared.
+use std::collections::BTreeSet;
+
+use radicle::cob::cache::{self, StoreWriter};
+use radicle::cob::issue::{self, Issues};
+use radicle::cob::patch::{self, Patches};
+use radicle::cob::{ObjectId, TypeName};
+use radicle::git::Oid;
+use radicle::storage::RefUpdate;
+use vcommon::{guarded, json, Args, Reporter, Rng, Value};
+
+use crate::gen::{IssueGen, Knobs, PatchGen};
+use crate::world::{random_oid, World};
+
+fn j<T: serde::Serialize, E: std::fmt::Display>(r: Result<T, E>) -> Value {
+    match r {
+        Ok(v) => json!({"ok": serde_json::to_value(v).unwrap_or(Value::Null)}),
+        Err(e) => json!({"err": e.to_string()}),
+    }
+}
+
+/// Normalise a result for comparison: errors compare equal to errors (messages differ by backend).
+fn norm(v: &Value) -> Value {
+    if v.get("err").is_some() { json!("ERR") } else { v.clone() }
+}
+
+fn list_json<I, T, E>(it: Result<I, E>) -> Value
+where
+    I: Iterator<Item = Result<(ObjectId, T), E>>,
+    T: serde::Serialize,
+    E: std::fmt::Display,
+{
+    match it {
+        Err(e) => json!({"err": e.to_string()}),
+        Ok(it) => {
+            let mut items: Vec<(String, Value)> = vec![];
+            for r in it {
+                match r {
+                    Ok((id, o)) => items.push((id.to_string(), serde_json::to_value(o).unwrap())),
+                    Err(e) => items.push(("ERR".into(), json!(e.to_string()))),
+                }
+            }
+            items.sort_by(|a, b| a.0.cmp(&b.0));
+            json!({"ok": items})
+        }
+    }
+}
+
+struct Objects {
+    issues: Vec<ObjectId>,
+    patches: Vec<ObjectId>,
+}
+
+/// Ids nested anywhere in the patches (for find_by_revision).
+fn harvest_ids(v: &Value, out: &mut BTreeSet<String>, redacted: &mut BTreeSet<String>) {
+    if let Some(m) = v.as_object() {
+        for (k, val) in m {
+            if k.len() == 40 && k.chars().all(|c| c.is_ascii_hexdigit()) {
+                out.insert(k.clone());
+                if val.is_null() {
+                    redacted.insert(k.clone());
+                }
+            }
+            harvest_ids(val, out, redacted);
+        }
+    } else if let Some(a) = v.as_array() {
+        for x in a {
+            harvest_ids(x, out, redacted);
+        }
+    } else if let Some(s) = v.as_str() {
+        if s.len() == 40 && s.chars().all(|c| c.is_ascii_hexdigit()) {
+            out.insert(s.to_string());
+        }
+    }
+}
+
+fn compare_all(rep: &mut Reporter, w: &World, store: &StoreWriter, objs: &Objects, rng: &mut Rng, trail: &[Value]) -> bool {
+    let r = guarded(|| -> Result<Vec<(String, Value, Value)>, String> {
+        let mut out = vec![];
+        let pc = patch::Cache::open(Patches::open(&w.repo).map_err(|e| e.to_string())?, store.clone());
+        let pd = patch::Cache::no_cache(&w.repo).map_err(|e| e.to_string())?;
+        let ic = issue::Cache::open(Issues::open(&w.repo).map_err(|e| e.to_string())?, store.clone());
+        let id = issue::Cache::no_cache(&w.repo).map_err(|e| e.to_string())?;
+        use issue::cache::Issues as _;
+        use patch::cache::Patches as _;
+        // get
+        let mut ids: Vec<ObjectId> = objs.patches.clone();
+        ids.push(ObjectId::from(random_oid(rng)));
+        for pid in &ids {
+            out.push((format!("patch.get"), j(pc.get(pid)), j(pd.get(pid))));
+        }
+        let mut ids: Vec<ObjectId> = objs.issues.clone();
+        ids.push(ObjectId::from(random_oid(rng)));
+        for iid in &ids {
+            out.push((format!("issue.get"), j(ic.get(iid)), j(id.get(iid))));
+        }
+        // list / by status / counts / is_empty
+        out.push(("patch.list".into(), list_json(pc.list()), list_json(pd.list())));
+        for st in [patch::Status::Open, patch::Status::Draft, patch::Status::Archived, patch::Status::Merged] {
+            out.push((format!("patch.list_by_status"), list_json(pc.list_by_status(&st)), list_json(pd.list_by_status(&st))));
+        }
+        out.push(("patch.counts".into(), j(pc.counts()), j(pd.counts())));
+        out.push(("patch.is_empty".into(), j(pc.is_empty()), j(pd.is_empty())));
+        out.push(("issue.list".into(), list_json(ic.list()), list_json(id.list())));
+        for st in [issue::State::Open, issue::State::Closed { reason: issue::CloseReason::Solved }, issue::State::Closed { reason: issue::CloseReason::Other }] {
+            out.push((format!("issue.list_by_status"), list_json(ic.list_by_status(&st)), list_json(id.list_by_status(&st))));
+        }
+        out.push(("issue.counts".into(), j(ic.counts()), j(id.counts())));
+        out.push(("issue.is_empty".into(), j(ic.is_empty()), j(id.is_empty())));
+        // find_by_revision with every id that occurs anywhere inside the patches
+        let mut all = BTreeSet::new();
+        let mut redacted = BTreeSet::new();
+        if let Ok(l) = pd.list() {
+            for (_, p) in l.flatten() {
+                harvest_ids(&serde_json::to_value(&p).unwrap(), &mut all, &mut redacted);
+            }
+        }
+        let revision_keys: BTreeSet<String> = {
+            let mut s = BTreeSet::new();
+            if let Ok(l) = pd.list() {
+                for (_, p) in l.flatten() {
+                    if let Some(m) = serde_json::to_value(&p).unwrap()["revisions"].as_object() {
+                        s.extend(m.keys().cloned());
+                    }
+                }
+            }
+            s
+        };
+        all.insert(random_oid(rng).to_string());
+        for idstr in &all {
+            let oid: Oid = idstr.parse().unwrap();
+            let rid = patch::RevisionId::from(oid);
+            let kind = if redacted.contains(idstr) && revision_keys.contains(idstr) {
+                "patch.find_by_revision(redacted-revision-id)"
+            } else if revision_keys.contains(idstr) {
+                "patch.find_by_revision(revision-id)"
+            } else {
+                "patch.find_by_revision(other-nested-or-unknown-id)"
+            };
+            let f = |r: Option<patch::ByRevision>| r.map(|b| json!({"id": b.id.to_string(), "revision_id": b.revision_id.to_string(), "patch": serde_json::to_value(&b.patch).unwrap(), "revision": serde_json::to_value(&b.revision).unwrap()}));
+            out.push((kind.to_string(), j(pc.find_by_revision(&rid).map(f)), j(pd.find_by_revision(&rid).map(f))));
+        }
+        Ok(out)
+    });
+    let results = match r {
+        Ok(Ok(v)) => v,
+        Ok(Err(e)) => {
+            rep.inconclusive("cache handles could not be opened", json!({"e": e}));
+            return false;
+        }
+        Err(p) => {
+            rep.violation(&format!("C09/panic/{}", vcommon::panic_site(&p)), json!({"panic": p, "operations": trail}));
+            return false;
+        }
+    };
+    for (q, cached, direct) in results {
+        rep.eval();
+        rep.count(&format!("query.{q}"));
+        if norm(&cached) != norm(&direct) {
+            let shape = if cached.get("err").is_some() { "cache-errors-where-direct-answers" } else if direct.get("err").is_some() { "cache-answers-where-direct-errors" } else { "answers-differ" };
+            rep.violation(&format!("C09/{q}/{shape}"), json!({"query": q, "cached": cached, "direct": direct, "operations": trail}));
+            return false;
+        }
+    }
+    true
+}
+
+fn refname(ns: &radicle::crypto::PublicKey, t: &TypeName, id: &ObjectId) -> radicle::git::RefString {
+    radicle::git::RefString::try_from(format!("refs/namespaces/{ns}/refs/cobs/{t}/{id}")).unwrap()
+}
+
+fn one(rep: &mut Reporter, seed: u64, thorough: bool) {
+    let mut rng = Rng::new(seed);
+    let nd = 1 + rng.usize(3);
+    let w = World::new(nd, nd + 2, 1 + rng.usize(nd), "c09");
+    let Ok(store) = cache::Store::<cache::Write>::memory().and_then(|s| s.with_migrations(cache::migrate::ignore)) else {
+        rep.inconclusive("cache store", json!({}));
+        return;
+    };
+    let mut store: StoreWriter = store;
+    let rid = w.repo.id;
+    let knobs = Knobs { nops: 99, ts_mode: 0, p_multi_reject: 0, p_bad_sig: 0, p_branch: 100, p_child_of_doomed: 0, unprivileged: false };
+    let mut issues: Vec<IssueGen> = vec![];
+    let mut patches: Vec<PatchGen> = vec![];
+    let mut objs = Objects { issues: vec![], patches: vec![] };
+    let mut trail: Vec<Value> = vec![];
+    let nsteps = 6 + rng.usize(if thorough { 30 } else { 12 });
+    let mut statuses = BTreeSet::new();
+    for step in 0..nsteps {
+        let choice = rng.below(12);
+        // refs before
+        let mut updates: Vec<RefUpdate> = vec![];
+        let ns = w.namespaces[0];
+        if choice <= 1 || (issues.is_empty() && patches.is_empty()) {
+            if rng.bool() {
+                let g = IssueGen::new(&w, &mut rng, &knobs);
+                let name = refname(&ns, &g.hist.typename, &g.hist.id);
+                w.raw().reference(name.as_str(), *g.hist.ops[0].oid, true, "verif").unwrap();
+                updates.push(RefUpdate::Created { name, oid: g.hist.ops[0].oid });
+                objs.issues.push(g.hist.id);
+                trail.push(json!({"step": step, "op": "fetched new issue", "id": g.hist.id.to_string()}));
+                issues.push(g);
+            } else {
+                let g = PatchGen::new(&w, &mut rng, &knobs);
+                let name = refname(&ns, &g.hist.typename, &g.hist.id);
+                w.raw().reference(name.as_str(), *g.hist.ops[0].oid, true, "verif").unwrap();
+                updates.push(RefUpdate::Created { name, oid: g.hist.ops[0].oid });
+                objs.patches.push(g.hist.id);
+                trail.push(json!({"step": step, "op": "fetched new patch", "id": g.hist.id.to_string()}));
+                patches.push(g);
+            }
+        } else if choice <= 8 {
+            // 1-3 more changes on an existing object, then one ref update to the new tip(s)
+            let on_patch = !patches.is_empty() && (issues.is_empty() || rng.chance(2, 3));
+            let n = 1 + rng.usize(3);
+            if issues.is_empty() && patches.is_empty() {
+                continue;
+            }
+            if on_patch {
+                let k = rng.usize(patches.len());
+                let g = &mut patches[k];
+                let old = g.hist.prefix_tips(g.hist.ops.len());
+                let mut kinds = vec![];
+                for _ in 0..n {
+                    let i = g.step(&w, &mut rng);
+                    kinds.extend(g.hist.ops[i].kinds.clone());
+                }
+                let tips = g.hist.prefix_tips(g.hist.ops.len());
+                // all tips under distinct namespaces
+                for (t, tip) in tips.iter().enumerate() {
+                    let name = refname(&w.namespaces[t % w.namespaces.len()], &g.hist.typename, &g.hist.id);
+                    w.raw().reference(name.as_str(), **tip, true, "verif").unwrap();
+                    updates.push(RefUpdate::Updated { name, old: old.first().copied().unwrap_or(*tip), new: *tip });
+                }
+                trail.push(json!({"step": step, "op": "fetched patch update", "id": g.hist.id.to_string(), "actions": kinds}));
+            } else {
+                let k = rng.usize(issues.len());
+                let g = &mut issues[k];
+                let old = g.hist.prefix_tips(g.hist.ops.len());
+                let mut kinds = vec![];
+                for _ in 0..n {
+                    let i = g.step(&w, &mut rng);
+                    kinds.extend(g.hist.ops[i].kinds.clone());
+                }
+                let tips = g.hist.prefix_tips(g.hist.ops.len());
+                for (t, tip) in tips.iter().enumerate() {
+                    let name = refname(&w.namespaces[t % w.namespaces.len()], &g.hist.typename, &g.hist.id);
+                    w.raw().reference(name.as_str(), **tip, true, "verif").unwrap();
+                    updates.push(RefUpdate::Updated { name, old: old.first().copied().unwrap_or(*tip), new: *tip });
+                }
+                trail.push(json!({"step": step, "op": "fetched issue update", "id": g.hist.id.to_string(), "actions": kinds}));
+            }
+        } else if choice == 9 && (!issues.is_empty() || !patches.is_empty()) {
+            // the object disappears: all its refs are deleted
+            let on_patch = !patches.is_empty() && (issues.is_empty() || rng.bool());
+            let (t, id): (TypeName, ObjectId) = if on_patch {
+                let k = rng.usize(patches.len());
+                let g = patches.remove(k);
+                objs.patches.retain(|x| *x != g.hist.id);
+                (g.hist.typename.clone(), g.hist.id)
+            } else {
+                let k = rng.usize(issues.len());
+                let g = issues.remove(k);
+                objs.issues.retain(|x| *x != g.hist.id);
+                (g.hist.typename.clone(), g.hist.id)
+            };
+            let glob = format!("refs/namespaces/*/refs/cobs/{t}/{id}");
+            let names: Vec<(String, git2::Oid)> = w.raw().references_glob(&glob).unwrap().filter_map(|r| r.ok()).filter_map(|r| Some((r.name()?.to_string(), r.target()?))).collect();
+            for (n, o) in names {
+                w.raw().find_reference(&n).unwrap().delete().unwrap();
+                updates.push(RefUpdate::Deleted { name: radicle::git::RefString::try_from(n).unwrap(), oid: o.into() });
+            }
+            trail.push(json!({"step": step, "op": "object removed (refs deleted)", "id": id.to_string()}));
+        } else {
+            // through the cached high-level API
+            let signer = &w.actors[rng.usize(w.ndelegates)];
+            let r = guarded(|| -> Result<Value, String> {
+                if rng.bool() {
+                    let mut pc = patch::Cache::open(Patches::open(&w.repo).map_err(|e| e.to_string())?, store.clone());
+                    if objs.patches.is_empty() || rng.chance(1, 3) {
+                        let p = pc.create(format!("api patch {step}"), "desc", patch::MergeTarget::Delegates, w.code[0], w.code[1], &[], signer).map_err(|e| e.to_string())?;
+                        Ok(json!({"op": "api: patch create", "id": p.id.to_string(), "new_patch": p.id.to_string()}))
+                    } else {
+                        let pid = *rng.pick(&objs.patches);
+                        let mut p = pc.get_mut(&pid).map_err(|e| e.to_string())?;
+                        let st = rng.pick(&[patch::Lifecycle::Draft, patch::Lifecycle::Open, patch::Lifecycle::Archived]).clone();
+                        p.lifecycle(st, signer).map_err(|e| e.to_string())?;
+                        Ok(json!({"op": "api: patch lifecycle", "id": pid.to_string()}))
+                    }
+                } else {
+                    let mut ic = issue::Cache::open(Issues::open(&w.repo).map_err(|e| e.to_string())?, store.clone());
+                    if objs.issues.is_empty() || rng.chance(1, 3) {
+                        let i = ic.create(format!("api issue {step}"), "desc", &[], &[], [], signer).map_err(|e| e.to_string())?;
+                        Ok(json!({"op": "api: issue create", "id": i.id().to_string(), "new_issue": i.id().to_string()}))
+                    } else {
+                        let iid = *rng.pick(&objs.issues);
+                        let mut i = ic.get_mut(&iid).map_err(|e| e.to_string())?;
+                        let st = if rng.bool() { issue::State::Open } else { issue::State::Closed { reason: issue::CloseReason::Solved } };
+                        i.lifecycle(st, signer).map_err(|e| e.to_string())?;
+                        Ok(json!({"op": "api: issue lifecycle", "id": iid.to_string()}))
+                    }
+                }
+            });
+            match r {
+                Ok(Ok(v)) => {
+                    if let Some(p) = v["new_patch"].as_str() {
+                        objs.patches.push(p.parse().unwrap());
+                    }
+                    if let Some(p) = v["new_issue"].as_str() {
+                        objs.issues.push(p.parse().unwrap());
+                    }
+                    rep.count("op.through-cached-api");
+                    trail.push(v);
+                }
+                Ok(Err(e)) => {
+                    rep.count("op.cached-api-error(skipped)");
+                    trail.push(json!({"op": "api error", "e": e}));
+                }
+                Err(p) => {
+                    rep.violation(&format!("C09/panic/{}", vcommon::panic_site(&p)), json!({"panic": p, "operations": trail}));
+                    return;
+                }
+            }
+        }
+        if !updates.is_empty() {
+            rep.count("op.fetched-update-through-cache_cobs");
+            if let Err(e) = radicle_node::worker::verif::cache_cobs(&rid, &updates, &w.repo, &mut store) {
+                rep.inconclusive("cache_cobs failed", json!({"e": e.to_string(), "operations": trail}));
+                return;
+            }
+        }
+        if !compare_all(rep, &w, &store, &objs, &mut rng, &trail) {
+            return;
+        }
+        // which statuses exist right now
+        if let Ok(pd) = patch::Cache::no_cache(&w.repo) {
+            use patch::cache::Patches as _;
+            if let Ok(c) = pd.counts() {
+                if c.open > 0 { statuses.insert("open"); }
+                if c.draft > 0 { statuses.insert("draft"); }
+                if c.archived > 0 { statuses.insert("archived"); }
+                if c.merged > 0 { statuses.insert("merged"); }
+            }
+        }
+    }
+    for s in &statuses {
+        rep.count(&format!("patch-status-populated.{s}"));
+    }
+    rep.nontrivial(seed);
+    if rep.wants_sample() {
+        rep.sample(json!({"operations": trail}));
+    }
+}
+
+pub fn run(args: &Args) {
+    let mut rep = Reporter::new("C09");
+    if let Some(path) = &args.replay {
+        let w = vcommon::load_replay(path);
+        one(&mut rep, w["case_seed"].as_u64().unwrap_or(args.seed), args.thorough);
+        rep.finish();
+        return;
+    }
+    for k in 0..args.budget(480, 12_000) {
+        one(&mut rep, args.case_seed(k), args.thorough);
+    }
+    rep.finish();
+}
